@@ -80,8 +80,30 @@ def poly_hash(s: str) -> int:
 # ------------------------------------------------------------------------------------------------
 # adapters over the real objects
 # ------------------------------------------------------------------------------------------------
+# ---- key types: the model's keys are naturals; the implementation is driven with int, str or dns.name.Name keys
+# through an order-preserving encoding whose image of 0 is the *falsy* key of that type (0, '', the empty name)
+_KT = "int"
+
+
+def kenc(k):
+    if _KT == "str":
+        return "" if k == 0 else "%06d" % k
+    if _KT == "name":
+        import dns.name
+        return dns.name.empty if k == 0 else dns.name.Name([b"%06d" % k])
+    return k
+
+
+def kdec(o):
+    if _KT == "str":
+        return 0 if o == "" else int(o)
+    if _KT == "name":
+        return 0 if len(o.labels) == 0 else int(o.labels[0])
+    return o
+
+
 def elt_str(e) -> str:
-    return f"{e.key()}:{getattr(e, '_value', 0)}"
+    return f"{kdec(e.key())}:{getattr(e, '_value', 0)}"
 
 
 def shape_of(root) -> str:
@@ -135,14 +157,14 @@ def check_invariants(tr):
             if n.children:
                 bad.append(("children", f"leaf with {len(n.children)} children"))
             leaf_depths.add(depth)
-            keys.extend(e.key() for e in n.elts)
+            keys.extend(kdec(e.key()) for e in n.elts)
         else:
             if len(n.children) != ne + 1:
                 bad.append(("children", f"internal node with {ne} elements and {len(n.children)} children at depth {depth}"))
             for i, c in enumerate(n.children):
                 walk(c, depth + 1, False)
                 if i < ne:
-                    keys.append(n.elts[i].key())
+                    keys.append(kdec(n.elts[i].key()))
 
     walk(tr.root, 0, True)
     if len(leaf_depths) > 1:
@@ -278,10 +300,10 @@ class Runner:
         e = self.objs.get((k, v))
         if e is None:
             if self.is_set:
-                e = btree.Member(k)
+                e = btree.Member(kenc(k))
                 e._value = v  # tag only; Member has no value of its own (printed as the value id)
             else:
-                e = btree.KV(k, v)
+                e = btree.KV(kenc(k), v)
             self.objs[(k, v)] = e
         return e
 
@@ -401,21 +423,21 @@ class Runner:
                 if op == "I":
                     v = a[2]
                     if self.is_set and v == 0:
-                        e = btree.Member(k)  # an untagged member, as `add` makes them
+                        e = btree.Member(kenc(k))  # an untagged member, as `add` makes them
                     else:
                         e = self.make_elt(k, v)
                     exp_old = ref.get(k)
                     if sel == 0 and not frozen and not (self.is_set and v != 0):
-                        old = tr.get_element(k)
+                        old = tr.get_element(kenc(k))
                         if self.is_set:
-                            tr.add(k)
+                            tr.add(kenc(k))
                         else:
-                            tr[k] = v
-                            self.objs[(k, v)] = tr.get_element(k)  # the KV object made by __setitem__
+                            tr[kenc(k)] = v
+                            self.objs[(k, v)] = tr.get_element(kenc(k))  # the KV object made by __setitem__
                     else:
                         old = tr.insert_element(e, tr.in_order)
                     ref[k] = v
-                    got = None if old is None else (old.key(), getattr(old, "_value", 0))
+                    got = None if old is None else (kdec(old.key()), getattr(old, "_value", 0))
                     exp = None if exp_old is None else (k, exp_old)
                     if got != exp:
                         self.fail("C19/insert/returned-element", f"op {at} {tok}: returned {got}, reference {exp}", at)
@@ -423,31 +445,31 @@ class Runner:
                 elif op == "D":
                     exp_old = ref.get(k)
                     if sel == 0 and not frozen:
-                        old = tr.get_element(k)
+                        old = tr.get_element(kenc(k))
                         if self.is_set:
-                            tr.discard(k)
+                            tr.discard(kenc(k))
                         else:
                             try:
-                                del tr[k]
+                                del tr[kenc(k)]
                                 if old is None:
                                     self.fail("C19/delete/keyerror", f"op {at} {tok}: no KeyError for a missing key", at)
                             except KeyError:
                                 if old is not None:
                                     self.fail("C19/delete/keyerror", f"op {at} {tok}: KeyError for a present key", at)
                     else:
-                        old = tr.delete_key(k)
+                        old = tr.delete_key(kenc(k))
                     ref.pop(k, None)
-                    got = None if old is None else (old.key(), getattr(old, "_value", 0))
+                    got = None if old is None else (kdec(old.key()), getattr(old, "_value", 0))
                     exp = None if exp_old is None else (k, exp_old)
                     if got != exp:
                         self.fail("C19/delete/returned-element", f"op {at} {tok}: returned {got}, reference {exp}", at)
                     res = "-" if old is None else elt_str(old)
                 else:
                     v = a[2]
-                    cur = tr.get_element(k)
+                    cur = tr.get_element(kenc(k))
                     if self.is_set and v == 0:
                         # untagged members (made by `add`) carry no identity tag: (k, 0) names the stored one
-                        e = cur if (cur is not None and not hasattr(cur, "_value")) else btree.Member(k)
+                        e = cur if (cur is not None and not hasattr(cur, "_value")) else btree.Member(kenc(k))
                         self.objs[(k, 0)] = e
                     else:
                         e = self.make_elt(k, v)
@@ -464,7 +486,7 @@ class Runner:
                 if op != "X":
                     self.fail(f"C19/{op}/exception:ValueError", f"op {at} {tok}: ValueError", at)
                 else:
-                    cur = tr.get_element(k)
+                    cur = tr.get_element(kenc(k))
                     if cur is not None and cur is self.objs.get((k, a[2])):
                         self.fail("C19/delete_exact/rejected-own", f"op {at} {tok}: ValueError although the stored element was passed", at)
                 return self.after_mutation(h, at, "VE")
@@ -498,22 +520,22 @@ class Runner:
             try:
                 if op == "O":
                     if self.is_set:
-                        e = tr.get_element(k)  # BTreeSet.pop() takes no key: pop of a member through discard
+                        e = tr.get_element(kenc(k))  # BTreeSet.pop() takes no key: pop of a member through discard
                         if e is None:
                             raise KeyError(k)
-                        tr.discard(k)
+                        tr.discard(kenc(k))
                         val = getattr(e, "_value", 0)
                     else:
-                        val = tr.pop(k)
+                        val = tr.pop(kenc(k))
                     if k not in ref or ref[k] != val:
                         self.fail("C19/api/pop-value", f"op {at} {tok}: pop returned {val}, reference {ref.get(k)}", at)
                     ref.pop(k, None)
                     res = str(val)
                 else:
                     if self.is_set:
-                        tr.remove(k)
+                        tr.remove(kenc(k))
                     else:
-                        del tr[k]
+                        del tr[kenc(k)]
                     if k not in ref:
                         self.fail("C19/api/delete-absent-accepted", f"op {at} {tok}: no KeyError for an absent key", at)
                     ref.pop(k, None)
@@ -533,7 +555,7 @@ class Runner:
             h, k = a
             if h >= len(T):
                 return "!"
-            got = k in T[h]
+            got = kenc(k) in T[h]
             if got != (k in self.refs[h]):
                 self.fail("C19/api/contains", f"op {at} {tok}: `in` gives {got}, reference {k in self.refs[h]}", at)
             return "1" if got else "0"
@@ -543,7 +565,7 @@ class Runner:
                 return "!"
             tr, ref = T[h], self.refs[h]
             if op == "K":
-                got = list(tr) if self.is_set else list(tr.keys())
+                got = [kdec(x) for x in tr] if self.is_set else [kdec(x) for x in tr.keys()]
                 exp = sorted(ref)
             else:
                 got = [getattr(e, "_value", 0) for e in self.items_of(tr)] if self.is_set else list(tr.values())
@@ -556,23 +578,23 @@ class Runner:
             if h >= len(T):
                 return "!"
             tr, ref = T[h], self.refs[h]
-            e = tr.get_element(k)
+            e = tr.get_element(kenc(k))
             if not self.is_set:
                 if sel == 0:
                     try:
-                        v = tr[k]
+                        v = tr[kenc(k)]
                         if e is None or e.value() != v:
                             self.fail("C19/lookup/getitem", f"op {at} {tok}: __getitem__ {v} vs get_element {e}", at)
                     except KeyError:
                         if e is not None:
                             self.fail("C19/lookup/getitem", f"op {at} {tok}: KeyError for a present key", at)
                 elif sel == 1:
-                    if (k in tr) != (e is not None):
+                    if (kenc(k) in tr) != (e is not None):
                         self.fail("C19/lookup/contains", f"op {at} {tok}: `in` disagrees with get_element", at)
             else:
-                if (k in tr) != (e is not None):
+                if (kenc(k) in tr) != (e is not None):
                     self.fail("C19/lookup/contains", f"op {at} {tok}: `in` disagrees with get_element", at)
-            got = None if e is None else (e.key(), getattr(e, "_value", 0))
+            got = None if e is None else (kdec(e.key()), getattr(e, "_value", 0))
             exp = (k, ref[k]) if k in ref else None
             if got != exp:
                 self.fail("C19/lookup/value", f"op {at} {tok}: got {got}, reference {exp}", at)
@@ -590,15 +612,15 @@ class Runner:
                 return "!"
             tr, ref = T[h], self.refs[h]
             items = self.items_of(tr)
-            got = [(e.key(), getattr(e, "_value", 0)) for e in items]
+            got = [(kdec(e.key()), getattr(e, "_value", 0)) for e in items]
             exp = [(k, ref[k]) for k in sorted(ref)]
             if got != exp:
                 self.fail("C19/iteration/visit_in_order", f"op {at} {tok}: {got} != reference {exp}", at)
-            it = list(tr)  # __iter__ (a registered cursor)
+            it = [kdec(x) for x in tr]  # __iter__ (a registered cursor)
             if it != [k for k, _ in exp]:
                 self.fail("C19/iteration/iter", f"op {at} {tok}: iter {it} != reference keys", at)
             if not self.is_set and sel == 0:
-                if list(tr.items()) != exp:
+                if [(kdec(a_), b_) for a_, b_ in tr.items()] != exp:
                     self.fail("C19/iteration/items", f"op {at} {tok}: items() differs from the reference", at)
             return "[" + ",".join(elt_str(e) for e in items) + "]"
         if op == "S" and len(a) == 1:
@@ -614,8 +636,8 @@ class Runner:
             if len(tr) == 0:
                 return "-"
             mn, mx = tr.root.minimum(), tr.root.maximum()
-            if ref and (mn.key() != min(ref) or mx.key() != max(ref)):
-                self.fail("C19/minmax/value", f"op {at} {tok}: {mn.key()}/{mx.key()} vs reference {min(ref)}/{max(ref)}", at)
+            if ref and (kdec(mn.key()) != min(ref) or kdec(mx.key()) != max(ref)):
+                self.fail("C19/minmax/value", f"op {at} {tok}: {kdec(mn.key())}/{kdec(mx.key())} vs reference {min(ref)}/{max(ref)}", at)
             return elt_str(mn) + "/" + elt_str(mx)
         if op == "C" and len(a) == 2:
             h, io = a
@@ -657,7 +679,7 @@ class Runner:
             h, cu, rc, _ = self.curs[a[0]]
             ref = self.refs[h]
             if op == "s":
-                cu.seek(a[1], a[2] != 0)
+                cu.seek(kenc(a[1]), a[2] != 0)
                 rc.seek(a[1], a[2] != 0)
                 return "ok"
             if op == "f":
@@ -678,7 +700,7 @@ class Runner:
             keys = sorted(ref)
             e = cu.next() if op == "n" else cu.prev()
             ek = rc.next(keys) if op == "n" else rc.prev(keys)
-            got = None if e is None else (e.key(), getattr(e, "_value", 0))
+            got = None if e is None else (kdec(e.key()), getattr(e, "_value", 0))
             exp = None if ek is None else (ek, ref[ek])
             if got != exp:
                 self.fail(f"C19/cursor/{'next' if op == 'n' else 'prev'}", f"op {at} {tok}: cursor returned {got}, reference order gives {exp}", at)
@@ -686,6 +708,8 @@ class Runner:
         return "!"
 
     def run(self):
+        global _KT
+        _KT = self.case.get("ktype", "int")
         _instrument()
         if self.t < 3:
             try:
